@@ -511,3 +511,37 @@ def _(tier, rng):
     for n in range(0, 4):
         for stream in itertools.product('de', repeat=n):
             for v in ('strict', 'lax', 'skip'): yield dict(stream=''.join(stream), validation=v)
+
+
+# ------------------------------------------------------------------ ValidationContext.__copy__ : what a sub-run collects belongs to the whole run
+t = Target('validation.ValidationContext.__copy__', ['C04', 'C08', 'C19'], FV, 'ValidationContext.__copy__', bounded_only=True,
+           note='run-time contract on the real method: a copy of the context (made for an element with inheritable attributes and for a mode changed by the validation '
+                'hook) SHARES the errors list, the ID map and the identity counters with the original - an error or an ID found below the copy point is seen by '
+                'iter_errors / the end-of-document checks - and has its own `inherited` mapping; every other slot has the same value',
+           assumes=['the slot loop over iter_class_slots is not within the executor subset (setattr over a computed name): bounded stand-in over the real class'])
+
+
+@t.concrete
+def _(inp):
+    import copy, xmlschema
+    from xmlschema.validators.validation import ValidationContext, DecodeContext
+    from xmlschema.namespaces import NamespaceMapper
+    res = xmlschema.XMLResource('<r xmlns:p="urn:p"/>')
+    cls = DecodeContext if inp['decode'] else ValidationContext
+    ctx = cls(source=res, converter=NamespaceMapper(None, source=res) if not inp['decode'] else None, level=inp['level'])
+    ctx.inherited['lang'] = 'en'
+    c = copy.copy(ctx)
+    problems = []
+    for name in ('errors', 'id_map', 'identities'):
+        if getattr(c, name) is not getattr(ctx, name): problems.append(f'{name} is a separate object: what the sub-run records is lost')
+    if c.inherited is ctx.inherited: problems.append('inherited is shared: attributes inherited below the copy point leak upwards')
+    if c.inherited != ctx.inherited: problems.append('inherited values differ')
+    for name in ('source', 'level', 'validation_hook', 'max_depth', 'use_defaults', 'check_identities'):
+        if getattr(c, name) != getattr(ctx, name): problems.append(f'{name} differs in the copy')
+    return dict(ok=not problems, observed=problems or 'ok', required='shared errors / id_map / identities, own inherited, same configuration')
+
+
+@t.scope
+def _(tier, rng):
+    for decode in (False, True):
+        for level in (0, 1, 3): yield dict(decode=decode, level=level)
